@@ -16,7 +16,7 @@ RULE = ("Generated: unconstrained layer DAGs (G-any: sums over different scopes,
         "the independent set-based definitions of vlib/defs.py: integrate/differentiate must raise "
         "StructuralPropertyError on a non-smooth or non-decomposable operand (ValueError also accepted when the "
         "arguments are invalid too) and multiply must raise on pairs that are invalid, of different scope or split "
-        "some scope differently; invalid arguments must raise ValueError; whenever an operator returns, the result "
+        "some scope differently (also when both operands are the very same circuit object); invalid arguments must raise ValueError; whenever an operator returns, the result "
         "is smooth and decomposable by the independent definitions, has the documented scope and number of outputs, "
         "products of SD operands are SD and compatible with both operands (library and independent predicates) and "
         "conjugate / concatenate / evidence keep the flags; query constructors raise ValueError on invalid compiled "
@@ -29,7 +29,7 @@ ASSUMPTIONS = ["structural validity is decided by vlib/defs.py on the layer grap
 def _case(draw, tier):
     big = tier == "thorough"
     mode = draw(st.sampled_from(["unary-any", "unary-any", "unary-valid", "badargs", "pair-compatible",
-                                 "pair-other", "pair-any", "query"]))
+                                 "pair-other", "pair-any", "query", "square-any", "square-sd"]))
     mv = 5 if big else 4
     leaf = draw(st.sampled_from(["emb", "pol", "cat"]))
     sdkw = dict(max_vars=mv, max_K=2, input_types=(leaf,), gauss_lp=False, deg_max=1, ncat_max=2)
@@ -38,6 +38,12 @@ def _case(draw, tier):
         c["a"] = draw(gen.any_circuit(max_vars=mv, max_layers=10 if big else 7, leaf=leaf))
     elif mode in ("unary-valid", "badargs"):
         c["a"] = draw(gen.sd_circuit(same_scope_outputs=draw(st.booleans()), **sdkw))
+    elif mode == "square-any":  # the very same circuit object as both operands
+        c["a"] = draw(gen.any_circuit(max_vars=mv, max_layers=8, leaf=leaf))
+        c["b"] = "same"
+    elif mode == "square-sd":
+        c["a"] = draw(gen.sd_circuit(structured=draw(st.booleans()), **sdkw))
+        c["b"] = "same"
     elif mode == "pair-compatible":
         c["a"], c["b"] = draw(gen.sd_pair(skeleton=True, max_reps=2, kron_max_out=4, **sdkw))
     elif mode == "pair-other":
@@ -121,6 +127,8 @@ def run_case(case):
     res = None
     err = None
 
+    if case.get("b") == "same":
+        classes.append("same-object-operands")
     if case["mode"] == "query":
         from cirkit.backend.torch.compiler import TorchCompiler
         from cirkit.backend.torch.queries import IntegrateQuery, SamplingQuery
@@ -203,9 +211,12 @@ def run_case(case):
             raise Violation("concatenate-must-return", f"concatenate:{type(err).__name__}", str(err)[:200])
         _check_result_structure(res, "concatenate", scope_a, 2 * Oa, must_be_valid=valid_a)
     else:  # multiply
-        b = _strip(case["b"])
-        with sut("build-circuit"):
-            sb = build(b)
+        if case["b"] == "same":
+            b, sb = a, sa
+        else:
+            b = _strip(case["b"])
+            with sut("build-circuit"):
+                sb = build(b)
         vb = defs.view_from_spec(b)
         valid_b = _valid(vb)
         scope_b = spec_scope(b)
